@@ -271,6 +271,9 @@ func genBreakerHistory(r *Rng, g bgen, n int) []BOpD {
 		if len(hist) > 0 && t < hist[len(hist)-1].T {
 			t = hist[len(hist)-1].T
 		}
+		if t < 0 { // "delay - 1" with a zero delay before the first operation: the clock cannot go back
+			t = 0
+		}
 		op := BOpD{T: t, K: Pick(r, kinds)}
 		switch op.K {
 		case "RecordResult":
